@@ -157,6 +157,15 @@ func (*BadAllotmentSum) Severity() Severity {
 	return ErrorSeverity
 }
 
+type DivideByZero struct{}
+
+func (e *DivideByZero) Message() string {
+	return "Cannot divide by zero"
+}
+func (*DivideByZero) Severity() Severity {
+	return ErrorSeverity
+}
+
 type FixedPortionVariable struct {
 	Value big.Rat
 }
